@@ -53,7 +53,10 @@ RULE = ("histories = one cell space (Moore/von Neumann grid in 1-3 dimensions, h
         "operations before the copy (placements and moves incl. into full cells, leave, move_relative along geometry and "
         "hand-made keys, cell-attribute and layer writes, fill, add/remove layer, random selections (select_random_cell / _agent "
         "on all_cells, empties and neighbourhood collections, select_random_empty_cell under both strategies; AgentSet "
-        "shuffle_do / shuffle) with the generator states of every side compared before and after, FixedAgent placement, agent.remove() incl. "
+        "shuffle_do / shuffle) with the generator states of every side compared before and after, with probability 0.4 a WARM "
+        "block before a copy (2-7 kinds of random selection made on the source, so all_cells, empties, neighbourhood caches and "
+        "whatever the selections keep between calls are warm) followed right after the copy by the same selections on the copy "
+        "and then on the source (each advances only its own generator; equal states give equal draws), FixedAgent placement, agent.remove() incl. "
         "FixedAgent.remove(), user attributes on cells, Cell.connect with hand-made keys, remove_property_layer('empty')), a "
         "copy (deepcopy or pickle, of the space or of the model holding it), then 4-14 further operations on either side incl. "
         "copies of copies; agent-set histories (add/discard/remove, copies of copies, forgetting all references + gc); every "
@@ -87,7 +90,7 @@ RULE = ("histories = one cell space (Moore/von Neumann grid in 1-3 dimensions, h
         "of space / cells / layers / sets, per-instance cell attributes READ BACK through the class (empty, visits, note), "
         "slot values, space attributes; shares no object; cached collections refer to its own cells; then moves and writes "
         "on the copy leave the original alone and keep `empty` tracking; non-trivial = a copy succeeded and >= 2 later operations changed something; distinct = "
-        "by SHA1 of the history; 16 corpus histories always first; enumerator = 606 scripted cases + 20 exotic + 72 multi + 240 user")
+        "by SHA1 of the history; 19 corpus histories always first; enumerator = 606 scripted cases + 20 exotic + 72 multi + 240 user")
 TRUSTED_BASE = [
     "Coq 8.16.1 kernel (coqc); vm_compute for the non-vacuity Examples and for evaluating run_world in the correspondence",
     "no axioms: Print Assumptions reports 'Closed under the global context' for each of the 38 C19 theorems",
@@ -128,6 +131,10 @@ ASSUMPTIONS = [
     "after remove_property_layer('empty') the instance attribute cell.empty is excluded from the faithful / fresh "
     "comparisons (a grid copy drops it: C19_remove_empty_copy_refuted) but stays in the correspondence; "
     "C19_world_invariant / C19_world_refinement exclude histories with that operation",
+    "cell.neighborhood means the targets of the cell's current connections, hand-made ones included (Model/CopyWorld.v "
+    "nbhd_cells): Cell.connect leaves an already cached neighborhood as it was, so the driver drops the cached neighborhood "
+    "of the one cell it connects by hand (and clears the process-wide functools caches of Cell.get_neighborhood / "
+    "_neighborhood, which are keyed by cell object and never part of a copied state); a copy carries neither the hand-made connections nor the cache",
     "user-code stream: only what HEAD does is demanded - grid cells drop their instance __dict__ (so user attributes of "
     "grid cells are not compared), attributes my own user hooks write during a copy are not compared, and the variant whose "
     "Cell subclass declares __slots__ is switched on by a probe of Cell.__getstate__ (on HEAD such a cell cannot be copied at "
@@ -363,13 +370,34 @@ def _gen_ops(rng, case, n_pre, n_post, force_copy=True):
             sides.append({"labels": list(sides[src]["labels"]), "layers": list(sides[src]["layers"])})
         return ["copy", rng.randrange(2), src, rng.randrange(2)]
 
+    def gen_copy_warm():
+        """with probability 0.4: every lazily cached thing of the source is warm before the copy (all_cells, empties, the
+        neighbourhood caches, whatever the random selections keep between calls: each kind of selection is made on the
+        source first), and right after the copy the same selection is made on the copy and then on the source (equal
+        generator states must give equal draws, each side advancing only its own generator)"""
+        if rng.random() >= 0.4:
+            return [gen_copy()]
+        kinds = list(range(7))
+        rng.shuffle(kinds)
+        kinds = kinds[:rng.randint(2, 7)]
+        if not {0, 3} & set(kinds):
+            kinds.append(rng.choice([0, 3]))
+        args = {k: rng.randrange(ncell) for k in kinds}
+        cp = gen_copy()
+        src, new = cp[2], len(sides) - 1
+        out = [["draw", src, k, args[k]] for k in kinds] + [cp]
+        if new != src:
+            for k in rng.sample(kinds, min(len(kinds), 3)):
+                out += [["draw", new, k, args[k]], ["draw", src, k, args[k]]]
+        return out
+
     for _ in range(n_pre):
         ops.append(gen_one(0))
     if force_copy:
-        ops.append(gen_copy())
+        ops += gen_copy_warm()
     for _ in range(n_post):
         if rng.random() < 0.07:
-            ops.append(gen_copy())
+            ops += gen_copy_warm()
         else:
             # prefer alternating between sides, newest side a bit more often
             s = len(sides) - 1 if rng.random() < 0.45 else pick_side()
@@ -469,7 +497,8 @@ def _enumerate_main(tier, broken=False):
                             keys = sorted({k for conns in _geom(case) for k, _ in conns}) or [0]
                             ops = [["move", 0, 1, 0], ["move", 0, 2, last], ["placefixed", 0, 5, 0], ["move", 0, 6, 0],
                                    ["leave", 0, 6], ["move", 0, 7, last], ["kill", 0, 7], ["setuser", 0, last, 10, 4],
-                                   ["copy", mech, 0, root], ["draw", 1, 0, 0], ["draw", 0, 3, 0], ["draw", 1, 3, 0], ["draw", 1, 5, 0],
+                                   ["draw", 0, 0, 0], ["draw", 0, 3, 0], ["draw", 0, 1, 0], ["draw", 0, 5, 0], ["draw", 0, 2, 0],
+                                   ["copy", mech, 0, root], ["draw", 1, 0, 0], ["draw", 0, 0, 0], ["draw", 1, 3, 0], ["draw", 0, 3, 0], ["draw", 1, 3, 0], ["draw", 1, 5, 0],
                                    ["draw", 0, 1, 0], ["draw", 1, 4, 0], ["draw", 1, 6, last], ["draw", 0, 2, 0],
                                    ["move", 1, 5, last], ["move", 1, 6, last], ["kill", 1, 1],
                                    ["setattr", 1, last, 0, 1], ["move", 1, 3, last], ["move", 1, 1, last],
@@ -487,7 +516,8 @@ def _enumerate_main(tier, broken=False):
                     case = {"kind": "space", "stype": "net", "dims": [], "torus": False, "cap": cap, "n": n,
                             "edges": edges, "vor": 0, "capfun": 0, "layers": []}
                     case["ops"] = [["move", 0, 1, 0], ["move", 0, 2, n - 1], ["placefixed", 0, 5, 0], ["move", 0, 6, 0], ["leave", 0, 6],
-                                   ["setuser", 0, n - 1, 11, 3], ["copy", mech, 0, root], ["draw", 1, 0, 0], ["draw", 0, 0, 0],
+                                   ["setuser", 0, n - 1, 11, 3], ["draw", 0, 0, 0], ["draw", 0, 4, 0], ["draw", 0, 5, 0], ["draw", 0, 1, 0],
+                                   ["copy", mech, 0, root], ["draw", 1, 0, 0], ["draw", 0, 0, 0],
                                    ["draw", 1, 3, 0], ["draw", 1, 5, 0], ["draw", 0, 1, 0], ["move", 1, 6, 0], ["move", 1, 5, n - 1],
                                    ["setuser", 1, n - 1, 11, 8], ["move", 1, 3, n - 1],
                                    ["relmove", 1, 1, n - 1], ["leave", 0, 1], ["copy", 1 - mech, 1, 0], ["move", 2, 1, 0]]
@@ -499,8 +529,8 @@ def _enumerate_main(tier, broken=False):
                     case = {"kind": "space", "stype": "vor", "dims": [], "torus": False, "cap": None, "n": 0,
                             "edges": [], "vor": v, "capfun": capfun, "layers": []}
                     n = len(VOR_POINTS[v])
-                    case["ops"] = [["move", 0, 1, 0], ["move", 0, 2, n - 1], ["move", 0, 3, n - 1], ["copy", mech, 0, root],
-                                   ["draw", 1, 0, 0], ["draw", 0, 2, 0], ["draw", 1, 4, 0], ["draw", 1, 5, 0],
+                    case["ops"] = [["move", 0, 1, 0], ["move", 0, 2, n - 1], ["move", 0, 3, n - 1], ["draw", 0, 0, 0], ["draw", 0, 2, 0], ["draw", 0, 6, 0],
+                                   ["copy", mech, 0, root], ["draw", 1, 0, 0], ["draw", 0, 0, 0], ["draw", 1, 2, 0], ["draw", 0, 2, 0], ["draw", 1, 4, 0], ["draw", 1, 5, 0],
                                    ["move", 1, 4, n - 1], ["relmove", 1, 1, 0 * 100 + 1], ["leave", 0, 1],
                                    ["copy", 1 - mech, 1, 0], ["move", 2, 1, 0]]
                     yield case
@@ -876,6 +906,17 @@ def _apply(case, side, op):
         if not (0 <= ci < len(cells) and 0 <= cj < len(cells)) or key < HANDMADE:
             return [-2]
         cells[ci].connect(cells[cj], ("x", key))
+        # Cell.connect does not refresh a `neighborhood` that was cached before (whether a later neighbourhood selection sees
+        # the new connection would depend on whether the property had been read: a matter of Cell, not of copying).  The
+        # driver drops that ONE cell's cache, so that `neighborhood` means "the current connections" on every side
+        # (ASSUMPTIONS); all other caches stay as warm as the history made them.
+        cells[ci].__dict__.pop("neighborhood", None)
+        # ... and the process-wide functools caches behind it (Cell.get_neighborhood / Cell._neighborhood, keyed by the cell
+        # object: never part of a copied state)
+        from mesa.discrete_space.cell import Cell as _Cell
+        for _f in (_Cell.get_neighborhood, _Cell._neighborhood):
+            if hasattr(_f, "cache_clear"):
+                _f.cache_clear()
         return [0]
     if kind == "setuser":
         _, _, ci, name, v = op
@@ -1077,6 +1118,7 @@ def _run_space(case):
     sides = [_Side(_build_space(case, m0), m0, {})]
     prev = [_abs(case, sides[0])]
     prev_rng = [(sides[0].space.random.getstate(), sides[0].model.random.getstate())]
+    copy_ok_at = -10
 
     def add(i, key, what):
         failures.append({"key": f"C19/{cls}/{key}", "op": i, "what": what})
@@ -1196,6 +1238,16 @@ def _run_space(case):
         if kind == "copy" and res == [0] and cur_rng[-1][0] != prev_rng[op[2]][0]:
             rng_bad.append(("copy/random-generator-state-not-carried",
                             "the copy's generator is not in the state the source's generator had when it was copied"))
+        ops_ = case["ops"]
+        if kind == "draw" and i >= 2 and copy_ok_at == i - 2 and ops_[i - 1][0] == "draw" and ops_[i - 2][0] == "copy" \
+                and ops_[i - 1][2:] == op[2:] and op[1] == ops_[i - 2][2] and ops_[i - 1][1] == len(sides) - 1 \
+                and ops_[i - 1][1] != op[1] and 0 <= op[1] < len(sides) and op[2] in (0, 1, 2, 3, 4) \
+                and cur_rng[op[1]][0] != cur_rng[ops_[i - 1][1]][0]:
+            rng_bad.append(("copy/random-equal-states-unequal-draws",
+                            f"right after the copy the same selection {op[2:]} was made on the copy and on its source, both "
+                            f"starting from the same generator state: the generators are in different states afterwards"))
+        if kind == "copy" and res == [0]:
+            copy_ok_at = i
         if kind == "draw" and res == [0, 0]:
             rng_bad.append(("copy/random-draw-ignores-own-generator",
                             f"{op}: a random selection on side {touched} left that side's own generator untouched"))
